@@ -45,7 +45,13 @@ PH = "PH_c18"
 COLL = {"atlas": ("Jets", "AntiKt4", ""), "cms_aod": ("Muons", "muons", ""), "cms_miniaod": ("Muons", "slimmedMuons", "pat::MuonCollection")}
 MAIN = {"atlas": "query.cxx", "cms_aod": "Analyzer.cc", "cms_miniaod": "Analyzer.cc"}
 HEADER = {"atlas": "query.h", "cms_aod": "Analyzer.cc", "cms_miniaod": "Analyzer.cc"}
-EXPR_POS = ("arg", "cmp", "select")
+EXPR_POS = ("arg", "cmp", "cmpf", "select")
+# cmpf: the constant next to a value of declared type float (a float constant is still a double literal there)
+FLOAT_ELEM = {"atlas": "xAOD::Jet", "cms_aod": "reco::Muon", "cms_miniaod": "pat::Muon"}
+
+
+def float_md(backend: str):
+    return [{"metadata_type": "add_method_type_info", "type_string": FLOAT_ELEM[backend], "method_name": "fl", "return_type": "float"}]
 SUBST_POS = ("bank", "attr")
 # a user C++ function (add_cpp_function metadata) with three parameters; the constant is passed for the second one
 USER_PARAMS = [("jet", "label", "bin"), ("obj", "name", "idx"), ("p", "s", "n"), ("particle", "tag", "pt")]  # = Consts.user_params
@@ -73,6 +79,7 @@ def query_src(backend: str, pos: str) -> str:
     return {
         "arg": f'ds.Select(lambda e: e.{c}("{b}").Select(lambda j: j.calc({P}))).AsROOTTTree("f.root", "t", ["c"])',
         "cmp": f'ds.Select(lambda e: e.{c}("{b}").Where(lambda j: j.pt() > {P}).Select(lambda j: j.eta())).AsROOTTTree("f.root", "t", ["c"])',
+        "cmpf": f'ds.Select(lambda e: e.{c}("{b}").Where(lambda j: j.fl() > {P}).Select(lambda j: j.eta())).AsROOTTTree("f.root", "t", ["c"])',
         "select": f'ds.Select(lambda e: {P}).AsROOTTTree("f.root", "t", ["c"])',
         "bank": f'ds.Select(lambda e: e.{c}({P}).Select(lambda j: j.pt())).AsROOTTTree("f.root", "t", ["c"])',
         "attr": f'ds.Select(lambda e: e.{c}("{b}").Select(lambda j: j.getAttributeFloat({P}))).AsROOTTTree("f.root", "t", ["c"])',
@@ -87,7 +94,7 @@ def run_impl(backend: str, pos: str, value: Any):
     """Plant `value` at `pos`, translate with the real executor.  ("ok", main text, header text, treename) | ("error", class, msg)"""
     import func_adl_xAOD.common.cpp_vars as cv
 
-    a = impl.query_ast(query_src(backend, pos), user_md(pos) if pos in USER_POS else None)
+    a = impl.query_ast(query_src(backend, pos), user_md(pos) if pos in USER_POS else (float_md(backend) if pos == "cmpf" else None))
     n = 0
     for node in ast.walk(a):
         if isinstance(node, ast.Constant) and type(node.value) is str and node.value == PH:
@@ -191,6 +198,8 @@ def markers(backend: str, pos: str, calib: Calib) -> List[Tuple[str, str]]:
         return [("calc(", ")")]
     if pos == "cmp":
         return [("pt()>", ")")]
+    if pos == "cmpf":
+        return [("fl()>", ")")]
     if pos == "select":
         return [(calib.var.get((backend, pos), "_c1") + " = ", ";")]
     if pos == "bank":
